@@ -66,7 +66,8 @@ def _amp():
 
 
 def _rare():
-    return st.integers(0, 9).map(lambda k: k == 0)
+    # (not k == 0: Hypothesis over-samples the ends of an integer range)
+    return st.integers(0, 15).map(lambda k: k == 11)
 
 
 def spec_strategy(shape):
@@ -503,10 +504,8 @@ def _krylov(emg3d, spec, rec, grid, model, freq, A, absA, interior, iint,
 
     def stub(A, b, x0=None, **kw):
         cap['A'] = A
-        cap['b'] = b
         return x0, 0
     sfk = gen.random_field(grid, spec['fseed'], freq, salt=13, scale=samp)
-    sfk_snap = sfk.field.copy()
     kw = {}
     if ks.get('efield'):
         kw['efield'] = ef.copy()
@@ -527,10 +526,6 @@ def _krylov(emg3d, spec, rec, grid, model, freq, A, absA, interior, iint,
     if np.dtype(op.dtype) != dt:
         raise Violation("krylov_operator:dtype",
                         f"LinearOperator dtype {op.dtype}, fields are {dt}")
-    if not np.array_equal(cap['b'], sfk_snap):
-        raise Violation("krylov_operator:rhs",
-                        "right-hand side given to the Krylov solver is not "
-                        "the source field")
     rng = gen.rng_of(spec['fseed'], 29)
     vecs = [np.array(ef.field),
             gen.random_field(grid, spec['fseed'], freq, salt=15,
@@ -592,9 +587,12 @@ def _make_sfield(emg3d, grid, fr, prov, rng):
         return emg3d.Field(grid, data, frequency=fr)
     if prov == 'source':
         n = grid.nodes_x, grid.nodes_y, grid.nodes_z
-        pt = [float(v[0] + (v[-1]-v[0])*rng.uniform(0.3, 0.7)) for v in n]
-        src = (pt[0], pt[1], pt[2], float(rng.uniform(-180, 180)),
-               float(rng.uniform(-90, 90)))
+        # finite dipole (x0, x1, y0, y1, z0, z1) with both ends well inside
+        # (a point dipole is a 1 m dipole: it can stick out of a small grid)
+        src = []
+        for v in n:
+            a, b = rng.uniform(0.2, 0.8, 2)
+            src += [float(v[0] + (v[-1]-v[0])*a), float(v[0] + (v[-1]-v[0])*b)]
         return emg3d.get_source_field(grid, src, frequency=fr)
     raise ValueError(prov)
 
@@ -777,8 +775,19 @@ def run(ctx):
     else:
         shapes = list(itertools.product([2, 3, 4, 5], repeat=3))
         per = ctx.n(6, 6)
+    # On a tree that violates the property every shape finds (and shrinks)
+    # the same signatures again; a replay file is written only for the first
+    # occurrence of a signature.  After three shapes whose violations were
+    # all seen before, later shapes are explored without the shrink phase
+    # (a signature first met there keeps its unshrunk replay spec).
+    wasted = 0
     for k, shape in enumerate(shapes):
+        n0 = len(ctx.violations) + len(ctx.known_hits)
+        e0 = ctx.evaluations
         ctx.explore('operator', spec_strategy(shape), case_operator, per,
-                    salt=k)
+                    salt=k, shrink=wasted < 3)
+        if (ctx.evaluations - e0 > per and
+                len(ctx.violations) + len(ctx.known_hits) == n0):
+            wasted += 1
     ctx.exhaustive['shapes'] = True
     ctx.notes['shapes_enumerated'] = len(shapes)
